@@ -193,7 +193,10 @@ func c01R3(p *core.Program, r *core.Report, w *core.Func) {
 	// in dominance order; its abstract text (constant parts + one marker per operand) is what is parsed.
 	// A single Fprintf, several WriteStrings or a mix are the same thing.
 	isImports := func(c *ast.CallExpr) bool {
-		// the import block step: a call that passes the source buffer together with the tracker's Imports()
+		// the import block step: a call of the import printer, or any call that passes the source buffer together with the tracker's Imports()
+		if isImportPrinterCall(p, info, c) {
+			return true
+		}
 		for _, a := range c.Args {
 			if ic, ok := ast.Unparen(a).(*ast.CallExpr); ok && strings.HasSuffix(core.CalleeName(info, ic), ").Imports") {
 				return true
@@ -341,6 +344,9 @@ func c01R4(p *core.Program, r *core.Report, w *core.Func, parse *ast.CallExpr) {
 	}
 	var ws []wr
 	isImportsCall := func(c *ast.CallExpr) bool {
+		if isImportPrinterCall(p, info, c) {
+			return true
+		}
 		for _, a := range c.Args {
 			if ic, ok := ast.Unparen(a).(*ast.CallExpr); ok && strings.HasSuffix(core.CalleeName(info, ic), ").Imports") {
 				return true
